@@ -291,7 +291,7 @@ func (c *evalCtx) lookupIdent(name string) (TVal, bool) {
 		}
 		// escaping locals (heap allocs) by name
 		for v, rv := range c.fr.regs {
-			if a, ok := v.(*ssa.Alloc); ok && a.Heap && a.Comment == name {
+			if a, ok := v.(*ssa.Alloc); ok && a.Heap && !cellLike(a) && a.Comment == name {
 				t := a.Type().Underlying().(*types.Pointer).Elem()
 				addr := rootAddr(sc(rv).T, a.Type())
 				return TVal{V: c.ex.load(c.st, addr), T: t, A: addr}, true
@@ -843,6 +843,35 @@ func (c *evalCtx) evalCall(x *ECall) TVal {
 			c.errf("fresh(): not a reference")
 		}
 		return boolTV(and(not(eq(r, z64())), not(sel(c.old.alloc, r))))
+	case "visitedCount":
+		var ck string
+		if c.ex.curRange != nil {
+			ck = fmt.Sprintf("$vcount_%p", c.ex.curRange)
+		}
+		v, ok := c.st.ghost[ck]
+		if !ok {
+			c.errf("visitedCount(): no range-over-map statement in scope")
+		}
+		return TVal{V: v, T: types.Typ[types.Int]}
+	case "sumof":
+		// sumof(m): the declared ghost sum over the domain of map m
+		m := arg(0)
+		gs := c.ex.ghostSumFor(m.T)
+		if gs == nil {
+			c.errf("sumof(): no ghostsum declared for %v", m.T)
+		}
+		mi := c.ex.mapInfo(m.T)
+		ref := sc(m.V).T
+		dom := c.ex.mapDom(c.st, mi, ref)
+		fn := c.ex.sumFn(gs, mi)
+		t := app(fn, dom)
+		// facts about finite sums and cardinalities (mathematical truths about the ghosts)
+		if c.ex.vc.noBind == 0 {
+			card := sel(c.ex.comp(c.st, mi.cardK, mi.cardS), ref)
+			c.ex.vc.Assume(and(app("bvsge", card, z64()), implies(not(eq(t, z64())), not(eq(card, z64())))))
+			c.ex.vc.Trust("ghost facts: card(m) >= 0, and a non-zero sum over dom(m) implies card(m) != 0")
+		}
+		return TVal{V: Sc{t, BV(64)}, T: types.Typ[types.Int]}
 	case "visited":
 		// visited(k): key k has already been produced by the enclosing range-over-map statement
 		k := arg(0)
